@@ -57,6 +57,7 @@ def main():
     seeds = [pegrun.syms(t) for t in ["", " ", "()", "(", ")", "a ==", "== 1", "a == 1 x", "not", "all a as { }", "any a as x {", "a[", 'a["x"', "a[1]", "a.", "a..b", '"/a/" == 1',
                                       "a == 1 and", "a in", "1 in", "a is", "a is not", "a is not empty or", 'a matches "("', "a == 1 and b == 2 or c == 3", "all a as x, x { x == 1 }", 'any x as v { "" is empty }', '"" == 1', 'all m as k, v { "" != 1 }', 'any x as v { "" in v }', 'foo matches "("', 'a not matches "[a"', 'any x as v { v matches "(" }', 'm.k matches ")" or foo matches "a(b"', 'foo matches ""', " a == 1 ", "\ta == 1\n", "a == 1\r\n", "\n\n(a == 1)  "]]
     seeds += [["<B>"] + s for s in seeds[:8]] + [s + ["<B>"] for s in seeds[:8]]
+    seeds += [pegrun.syms(t) for t in pegrun.EXTRA_TEXTS]
     seeds = pegrun.cheap([s for s in seeds if s is not None], 20000, wd)
     world = pegrun.peg_world(toks, 2 if quick else 3, 1, seeds, checked=True, later=pegrun.LATER[:16])
     res = pegrun.run_peg(chk, "c10", world, shapes=True)
